@@ -111,7 +111,7 @@ func (f *Frame) bindParamNames(ct *Contract) {
 }
 
 // functypeCall: a call through a function value whose type carries a contract.
-func (f *Frame) functypeCall(st *State, r *Term, ct *Contract, nt *types.Named, args []Val, pos token.Pos) Val {
+func (f *Frame) functypeCall(st *State, r *Term, ct *Contract, nt *types.Named, fnv *Term, args []Val, pos token.Pos) Val {
 	sig := nt.Underlying().(*types.Signature)
 	cf := &Frame{ctx: f.ctx, fn: f.fn, tmap: f.tmap, vals: f.vals, parent: f, depth: f.depth + 1, ghosts: map[string]SVal{}, curKey: map[*ssa.Range]*Term{}, specVars: map[string]SVal{}}
 	for i := 0; i < sig.Params().Len() && i < len(args); i++ {
@@ -150,6 +150,11 @@ func (f *Frame) functypeCall(st *State, r *Term, ct *Contract, nt *types.Named, 
 	}
 	f.ctx.trusted["function-type contract "+ct.Key+": every value of this type obeys it (all closures the module creates for it are verified against it; values created elsewhere are assumed to)"] = true
 	out := f.freshResults(st, sig, "ft")
+	if ct.Pure {
+		// a `pure` function type: the results are functions of the function value and the argument
+		// values (the same terms apply(fn, args...) denotes in specifications)
+		out = f.applyFnValue(ct, sig, fnv, args)
+	}
 	var rs []SVal
 	switch o := out.(type) {
 	case *Term:
@@ -395,4 +400,24 @@ func (f *Frame) fieldFnCallPre(st *State, r *Term, cc *ssa.CallCommon, args []Va
 		}
 		f.check("pre", "->"+shortKey(ct.Key)+":"+label, r, se.evalBool(rq.Expr), pos)
 	}
+}
+
+
+// applyFnValue: the results of calling a value of a `pure` function type, as uninterpreted functions
+// of the function value and the argument values.
+func (f *Frame) applyFnValue(ct *Contract, sig *types.Signature, fnv *Term, args []Val) Val {
+	ts := []*Term{fnv}
+	for _, a := range args {
+		ts = append(ts, f.asTerm(a))
+	}
+	var out TupleVal
+	for i := 0; i < sig.Results().Len(); i++ {
+		t := f.subst(sig.Results().At(i).Type())
+		out = append(out, f.ctx.uf("apply!"+ct.Key+"!"+itoa(i), f.sortOf(t), ts...))
+	}
+	f.ctx.trusted["pure function type "+ct.Key+": the result of calling a value of this type is a function of the value and of its argument values (all built-in selectors are; the state is the one at the time of application)"] = true
+	if len(out) == 1 {
+		return out[0]
+	}
+	return out
 }
